@@ -21,8 +21,8 @@ import (
 //	sch <id0:v0,…>… sched <T<i>>…      updateSDPOrigin on one shared origin from 1–4 harness threads under
 //	                                    the cooperative scheduler (yields after the CAS, in the load loop,
 //	                                    before the add); trace validated step by step against the Lean system
-//	seq eng=<a|d> <op>…                 one real PeerConnection, sequential CreateOffer / CreateAnswer mixed
-//	                                    with state changes; every o= line parsed
+//	seq eng=<a|d|p> <op>…               one real PeerConnection, sequential CreateOffer / CreateAnswer mixed
+//	                                    with state changes (incl. rollback, older descriptions); every o= line parsed
 //	race n=<N> spin=<S>                 N CreateOffer calls, each racing with Transceiver.Stop (successful retries)
 //	par pc|hook …                       genuinely concurrent calls (goroutines released together, round by
 //	                                    round) on one real PeerConnection / one shared origin; `par hook` also
@@ -198,7 +198,46 @@ type c11Peer struct {
 	remote     *webrtc.PeerConnection
 	lastOffer  *webrtc.SessionDescription
 	lastAnswer *webrtc.SessionDescription
+	prevOffer  *webrtc.SessionDescription // the offer created before lastOffer
+	prevAnswer *webrtc.SessionDescription
 	planB      bool
+}
+
+func (p *c11Peer) ensureRemote() bool {
+	if p.remote == nil {
+		r, err := c11NewPC(false)
+		if err != nil {
+			return false
+		}
+		p.remote = r
+		_, _ = r.CreateDataChannel("r", nil)
+	}
+
+	return true
+}
+
+// remoteAnswer lets the remote peer answer our pending (else last created) offer and applies the result
+// as `typ` (answer / pranswer); the remote peer then rolls back, so it can be used again.
+func (p *c11Peer) remoteAnswer(typ webrtc.SDPType) {
+	off := p.pc.PendingLocalDescription()
+	if off == nil || off.Type != webrtc.SDPTypeOffer {
+		off = p.lastOffer
+	}
+	if off == nil || !p.ensureRemote() {
+		return
+	}
+	if err := p.remote.SetRemoteDescription(webrtc.SessionDescription{Type: webrtc.SDPTypeOffer, SDP: off.SDP}); err != nil {
+		c11Dbg("N(remote side)", err)
+
+		return
+	}
+	ans, err := p.remote.CreateAnswer(nil)
+	_ = p.remote.SetRemoteDescription(webrtc.SessionDescription{Type: webrtc.SDPTypeRollback})
+	if err != nil {
+		return
+	}
+	ans.Type = typ
+	c11Dbg("N", p.pc.SetRemoteDescription(ans))
 }
 
 func (p *c11Peer) close() {
@@ -228,6 +267,12 @@ func (p *c11Peer) create(kind string) (id, ver uint64, ok bool) {
 	return id, ver, ok
 }
 
+func c11Dbg(op string, err error) {
+	if err != nil && os.Getenv("C11_DEBUG") != "" {
+		fmt.Fprintf(os.Stderr, "  %s: %v\n", op, err)
+	}
+}
+
 // state ops (no origin effect of their own)
 func (p *c11Peer) stateOp(op string) {
 	switch op {
@@ -242,22 +287,12 @@ func (p *c11Peer) stateOp(op string) {
 		_, _ = p.pc.AddTransceiverFromKind(webrtc.RTPCodecTypeVideo,
 			webrtc.RTPTransceiverInit{Direction: webrtc.RTPTransceiverDirectionRecvonly})
 	case "R":
-		if p.remote == nil {
-			r, err := c11NewPC(false)
-			if err != nil {
-				return
-			}
-			p.remote = r
-			_, _ = r.CreateDataChannel("r", nil)
+		if !p.ensureRemote() {
+			return
 		}
 		o, err := p.remote.CreateOffer(nil)
 		if err == nil {
-			// give the remote data section a non-numeric mid, so that it cannot collide with the numeric mids
-			// CreateOffer hands to local transceivers (a collision makes every later CreateOffer run into
-			// errExcessiveRetries — mid allocation is C06's subject, not this property's)
-			o.SDP = strings.ReplaceAll(o.SDP, "a=mid:0\r\n", "a=mid:rd\r\n")
-			o.SDP = strings.ReplaceAll(o.SDP, "a=group:BUNDLE 0\r\n", "a=group:BUNDLE rd\r\n")
-			_ = p.pc.SetRemoteDescription(o)
+			c11Dbg("R", p.pc.SetRemoteDescription(o))
 		}
 	case "L":
 		if p.lastAnswer != nil {
@@ -267,6 +302,28 @@ func (p *c11Peer) stateOp(op string) {
 		if p.lastOffer != nil {
 			_ = p.pc.SetLocalDescription(*p.lastOffer)
 		}
+	case "Ko": // an OLDER offer: created, then another one created, then the older one applied
+		if p.prevOffer != nil {
+			_ = p.pc.SetLocalDescription(*p.prevOffer)
+		}
+	case "Lo":
+		if p.prevAnswer != nil {
+			_ = p.pc.SetLocalDescription(*p.prevAnswer)
+		}
+	case "P": // the last answer applied as a provisional answer
+		if p.lastAnswer != nil {
+			d := *p.lastAnswer
+			d.Type = webrtc.SDPTypePranswer
+			_ = p.pc.SetLocalDescription(d)
+		}
+	case "Rl":
+		_ = p.pc.SetLocalDescription(webrtc.SessionDescription{Type: webrtc.SDPTypeRollback})
+	case "Rr":
+		_ = p.pc.SetRemoteDescription(webrtc.SessionDescription{Type: webrtc.SDPTypeRollback})
+	case "N":
+		p.remoteAnswer(webrtc.SDPTypeAnswer)
+	case "Np":
+		p.remoteAnswer(webrtc.SDPTypePranswer)
 	case "C":
 		_ = p.pc.Close()
 	}
@@ -282,6 +339,8 @@ func c11Seq(a []string) string {
 	}
 	p := &c11Peer{pc: pc, planB: a[1] == "eng=p"}
 	defer p.close()
+	// every offer has at least the application section (a remote peer cannot answer an offer without media)
+	p.stateOp("D")
 	var clock uint64
 	obs := []c11Obs{}
 	for _, op := range a[2:] {
@@ -310,13 +369,15 @@ func c11Seq(a []string) string {
 				}
 				dd := d
 				if op == "O" || op == "Ot" {
+					p.prevOffer = p.lastOffer
 					p.lastOffer = &dd
 				} else {
+					p.prevAnswer = p.lastAnswer
 					p.lastAnswer = &dd
 				}
 			}
 			obs = append(obs, o)
-		case "T", "D", "X", "R", "L", "K", "C":
+		case "T", "D", "X", "R", "L", "K", "C", "Ko", "Lo", "P", "Rl", "Rr", "N", "Np":
 			p.stateOp(op)
 		default:
 			return "bad-op"
@@ -808,10 +869,45 @@ func c11GenSeq(c *Ctx) {
 	weights := []struct {
 		op string
 		w  int
-	}{{"O", 8}, {"A", 8}, {"Ot", 2}, {"At", 2}, {"R", 5}, {"L", 4}, {"T", 2}, {"D", 1}, {"K", 1}, {"X", 1}, {"C", 1}}
+	}{{"O", 9}, {"A", 8}, {"Ot", 2}, {"At", 2}, {"R", 5}, {"L", 4}, {"T", 2}, {"D", 1}, {"K", 4}, {"X", 1}, {"C", 1},
+		{"Rl", 4}, {"Rr", 3}, {"Ko", 2}, {"Lo", 1}, {"P", 2}, {"N", 3}, {"Np", 2}}
 	total := 0
 	for _, w := range weights {
 		total += w.w
+	}
+	// scripted: rollback (local / remote) in every signaling state — stable, have-local-offer, have-remote-offer,
+	// have-local-pranswer, have-remote-pranswer, closed — each followed by new offers / answers; an older
+	// description applied after a newer one was created
+	reach := map[string][]string{
+		"stable":               {},
+		"have-local-offer":     {"O", "K"},
+		"have-remote-offer":    {"R"},
+		"have-local-pranswer":  {"R", "A", "P"},
+		"have-remote-pranswer": {"O", "K", "Np"},
+		"closed":               {"O", "C"},
+		"stable-negotiated":    {"O", "K", "N"},
+	}
+	states := []string{"stable", "have-local-offer", "have-remote-offer", "have-local-pranswer", "have-remote-pranswer",
+		"closed", "stable-negotiated"}
+	for _, eng := range []string{"a", "d", "p"} {
+		for _, st := range states {
+			for _, rb := range []string{"Rl", "Rr"} {
+				c.Emit("seq eng=%s O O %s %s O O R A A %s O A", eng, strings.Join(reach[st], " "), rb, rb)
+				c.Emit("seq eng=%s %s O %s O %s A O", eng, strings.Join(reach[st], " "), rb, rb)
+			}
+			c.Emit("seq eng=%s O O %s Ko O Lo O A", eng, strings.Join(reach[st], " "))
+		}
+		c.Emit("seq eng=%s O O K Rl O O", eng) // the history of seeded change C11-3
+		c.Emit("seq eng=%s O K Rl O K Rl O K Rl O", eng)
+		c.Emit("seq eng=%s R A Rr R A L O K Rl O", eng)
+		c.Emit("seq eng=%s R A A Lo L O O Ko K Rl Ko O", eng)
+		c.Emit("seq eng=%s R A P A Rl R A P A L O", eng)
+		c.Emit("seq eng=%s O K Np Rr O K N O", eng)
+		// a description applied after a newer one of the other kind was created (seeded change C11-4)
+		c.Emit("seq eng=%s R A O O L O A", eng)
+		c.Emit("seq eng=%s O R A L K O O", eng)
+		c.Emit("seq eng=%s R A O P O A L O", eng)
+		c.Emit("seq eng=%s O O R A A L K O Rl O", eng)
 	}
 	for n := 0; n < c.N(160, 3000); n++ {
 		eng := []string{"a", "a", "a", "d", "d", "p"}[r.Intn(6)]
@@ -885,9 +981,14 @@ func init() {
 			"the others spin) with session ids and versions drawn from {typical, 1..3, close to 2^64} and a malformed " +
 			"stream (id 0, version 0, wrapping version: outside the property's hypotheses, compared with the model " +
 			"only); each observed trace is replayed by the Lean transition system. " +
-			"seq: one real PeerConnection, 2–16 operations drawn from CreateOffer, CreateAnswer, remote offer, " +
-			"SetLocalDescription(answer/offer), AddTransceiver, CreateDataChannel, a codec-less transceiver (makes " +
-			"CreateOffer run its 128-iteration retry loop), Close; every o= line parsed. " +
+			"seq: one real PeerConnection; scripted histories with a local / remote rollback in every signaling state " +
+			"(stable, have-local-offer, have-remote-offer, have-local-pranswer, have-remote-pranswer, closed, stable " +
+			"after a full exchange) followed by further offers/answers, and with an older offer / answer applied " +
+			"after a newer one was created; plus random histories of 2–16 operations drawn from CreateOffer, " +
+			"CreateAnswer, remote offer, remote answer / pranswer to our offer, SetLocalDescription(last answer, as " +
+			"answer or pranswer / last offer / an OLDER offer or answer / rollback), SetRemoteDescription(rollback), " +
+			"AddTransceiver, CreateDataChannel, a codec-less transceiver (makes CreateOffer run its 128-iteration " +
+			"retry loop), Close; every o= line parsed. " +
 			"par pc: 2–8 goroutines × 1–4 calls × 1–5 rounds (plus one 8 × 20 burst) of CreateOffer/CreateAnswer " +
 			"released together on one real PeerConnection in have-remote-offer / stable. " +
 			"par hook: the same on one shared origin without any lock — small mixes, 'cas-race' lines (300–2500 " +
@@ -946,6 +1047,20 @@ func init() {
 				}
 				if a[1] == "eng=p" {
 					cl += " plan-b"
+				}
+				for _, t := range a[2:] {
+					if t == "Rl" || t == "Rr" {
+						cl += " rollback"
+
+						break
+					}
+				}
+				for _, t := range a[2:] {
+					if t == "Ko" || t == "Lo" {
+						cl += " older-description"
+
+						break
+					}
 				}
 				for _, t := range a[2:] {
 					if t == "X" && a[1] == "eng=a" {
